@@ -5,7 +5,7 @@ import vlib
 
 PID = "C02"
 CONNECTORS = {"A": {"features": ["TcpForward"], "fail": False},
-              "B": {"features": ["TcpForward", "UdpForward"], "fail": False},
+              "B": {"features": ["TcpForward", "UdpForward", "UdpBind"], "fail": False},
               "C": {"features": ["TcpForward", "UdpForward"], "fail": True}}
 
 
